@@ -123,6 +123,7 @@ def qha_specs(draw, tier):
             "dT": draw(st.sampled_from([10.0, 25.0, 50.0])), "pressure": draw(st.sampled_from([None, None, 0.5, 3.0, 7.0, 20.0, -2.0])),
             "el": draw(st.sampled_from(["zeros", "V", "TV"])), "t_max": draw(st.sampled_from([None, None, "inner"])),
             "tgrid": draw(st.sampled_from(["uniform", "uniform", "piecewise", "irregular"])),
+            "v0_range": draw(st.sampled_from(["inside", "inside", "above_at_high_T", "below_at_low_T"])),
             "convex": draw(st.booleans()), "container": draw(st.sampled_from(["array", "list", "readonly"])), "twice": draw(st.booleans())}
 
 
@@ -142,6 +143,12 @@ def run_qha(spec):
         T = np.concatenate([[0.0], np.cumsum(rng.uniform(0.3, 2.0, size=nT - 1) * spec["dT"])])
     x = T / max(T[-1], 1.0)
     V0 = 60 * (1 + rng.uniform(0.005, 0.05) * x + rng.uniform(0, 0.02) * x ** 2)
+    # the equilibrium volume need not lie between the smallest and largest volume point at every temperature (strong expansion, or
+    # a pressure term): the data are still exactly the EOS, so the parameters are the known ones
+    if spec.get("v0_range") == "above_at_high_T":
+        V0 = 60 * (1.10 + 0.085 * x)
+    elif spec.get("v0_range") == "below_at_low_T":
+        V0 = 60 * (0.862 + 0.06 * x)
     B0 = 0.6 * (1 - rng.uniform(0.02, 0.3) * x)
     Bp = 4.5 + rng.uniform(-0.5, 0.5) * x
     E0 = -10 - rng.uniform(0.01, 0.5) * x ** 2
@@ -267,7 +274,7 @@ def run_qha(spec):
             return Out(ok=False, msg="two consecutive analyses of the same input arrays differ")
     nontriv = nT >= 3 and (Pg is not None or spec["el"] == "TV")
     return Out(ok=True, nontrivial=nontriv, classes=[spec["eos"], "P:%s" % ("none" if Pg is None else "set"), "el:" + spec["el"],
-                                                     "tmax" if t_max else "notmax", "tgrid:" + spec.get("tgrid", "uniform"), "nV:%d" % nV, "epf:%s" % spec.get("epf"), "volumes:" + vo, "convex" if spec["convex"] else "concave", spec["container"]],
+                                                     "tmax" if t_max else "notmax", "tgrid:" + spec.get("tgrid", "uniform"), "v0:" + spec.get("v0_range", "inside"), "nV:%d" % nV, "epf:%s" % spec.get("epf"), "volumes:" + vo, "convex" if spec["convex"] else "concave", spec["container"]],
                info={"err": float(max(errs.values()))})
 
 
